@@ -7,6 +7,15 @@ func main() {
 	xlate.Main("C02",
 		xlate.Spec{Pkg: "util", Name: "BinSearchInRange"},
 		// the ids index is an interface: its two methods stay uninterpreted (parameters idsIndex_Len, idsIndex_LessOrEqual)
+		// nodeRange: start / bound / step chosen by NewRange (its struct holds a function value: taken as slices), one Next step
+		xlate.Spec{Pkg: "node", Name: "NewRange", As: "rangeStep", Stmts: []string{"step := 1", "if reverse"}, Result: "step"},
+		xlate.Spec{Pkg: "node", Name: "NewRange", As: "rangeStart", Stmts: []string{"if reverse"}, Result: "minVal"},
+		xlate.Spec{Pkg: "node", Name: "NewRange", As: "rangeBound", Stmts: []string{"if reverse"}, Result: "maxVal"},
+		xlate.Spec{Pkg: "node", Recv: "nodeRange", Name: "Next"},
+		// nodeOr.Next: which side is taken (the reads of the children are interface calls)
+		xlate.Spec{Pkg: "node", Recv: "nodeOr", Name: "Next", As: "orDone", Stmts: []string{"if !n.hasLeft && !n.hasRight"}},
+		xlate.Spec{Pkg: "node", Recv: "nodeOr", Name: "Next", As: "orTakeLeft", Stmts: []string{"if n.hasLeft && ("}},
+		xlate.Spec{Pkg: "node", Recv: "nodeOr", Name: "Next", As: "orTakeRight", Stmts: []string{"if n.hasRight && ("}},
 		xlate.Spec{Pkg: "frac/processor", Name: "getLIDsBorders", Oracles: []string{"idsIndex.Len", "idsIndex.LessOrEqual"}},
 	)
 }
